@@ -2794,8 +2794,24 @@ class _ExtMixin:
             return [("v", Const(x), TRUE) for x in v.v]
         return None
 
+    def lazy_stop(self, src, items, want):
+        """any()/all()/next() over a generator expression consume it lazily: the iteration (and the side effects of producing
+        the elements) ends at the first hit.  Recorded as a stop condition of the comprehension's loop."""
+        v = self.simp(src)
+        o = self.heap.get(v.oid) if isinstance(v, Ref) else None
+        if getattr(o, "comp", None) != "gen" or not items:
+            return
+        for it in items:
+            if it[0] == "rep":
+                t = self.truth(it[2])
+                hit = it[3] if want is None else and_(it[3], t if want else not_(t))
+                if hit != FALSE and hit not in it[1].stops:
+                    it[1].stops.append(hit)
+
     def x_next(self, a, k, n):
         items = self.seq_items(a[0], n)
+        if items is not None:
+            self.lazy_stop(a[0], items, None)
         if items is None:
             src = self.simp(a[0])
             if len(a) == 1 and isinstance(src, Op) and src.op.startswith("call:"):
@@ -2824,6 +2840,7 @@ class _ExtMixin:
         items = self.seq_items(a[0], n)
         if items is None:
             return None
+        self.lazy_stop(a[0], items, want)
         hits = []
         for it in items:
             if it[0] == "v":
